@@ -9,12 +9,18 @@ for prop, t in TEXT.items():
     if t.get("unclaimed"):
         reg["properties"][prop] = {"unclaimed": t["unclaimed"]}
         continue
-    f = os.path.join(ROOT, "lean", "Rcgen", "Theorems", prop + ".lean")
-    src = open(f).read()
-    names = re.findall(r"^theorem\s+([A-Za-z0-9_'.]+)", src, re.M)
+    # Theorems/Cnn.lean, plus Theorems/Cnn_<part>.lean (same namespace; used where the property's
+    # theorem file sits low in the import graph and later results have to live above it)
+    tdir = os.path.join(ROOT, "lean", "Rcgen", "Theorems")
+    extra = sorted(x[:-5] for x in os.listdir(tdir) if x.startswith(prop + "_") and x.endswith(".lean"))
     ns = "Rcgen.Theorems." + prop
+    names = []
+    for stem in [prop] + extra:
+        src = open(os.path.join(tdir, stem + ".lean")).read()
+        names += re.findall(r"^theorem\s+([A-Za-z0-9_'.]+)", src, re.M)
     e = {
         "module": ns,
+        "extra_modules": ["Rcgen.Theorems." + x for x in extra],
         "theorems": [ns + "." + n for n in names],
         "features": t.get("features", ["ring"]),
         "features_thorough": t.get("features_thorough", t.get("features", ["ring"])),
